@@ -269,7 +269,7 @@ def hashWords (ms : Ms) : List Word := ms.preOrder.flatMap hashNode
 
 /-- `Terminal::fragment_name` as an enumeration (`str` gives the Rust string) -/
 inductive FragName where
-  | one | zero | pk_k | pk_h | expr_raw_pk_h | after | older | sha256 | hash256 | ripemd160
+  | one | zero | pk_k | pk_h | after | older | sha256 | hash256 | ripemd160
   | hash160 | a | s | pk | pkh | expr_raw_pkh | c | d | v | j | n | t | and_v | and_n | and_b
   | andor | or_b | or_d | or_c | u | l | or_i | thresh | multi | sortedmulti | multi_a
   | sortedmulti_a
@@ -277,7 +277,7 @@ inductive FragName where
 
 def FragName.str : FragName → String
   | .one => "1" | .zero => "0" | .pk_k => "pk_k" | .pk_h => "pk_h"
-  | .expr_raw_pk_h => "expr_raw_pk_h" | .after => "after" | .older => "older"
+  | .after => "after" | .older => "older"
   | .sha256 => "sha256" | .hash256 => "hash256" | .ripemd160 => "ripemd160"
   | .hash160 => "hash160" | .a => "a" | .s => "s" | .pk => "pk" | .pkh => "pkh"
   | .expr_raw_pkh => "expr_raw_pkh" | .c => "c" | .d => "d" | .v => "v" | .j => "j" | .n => "n"
@@ -286,18 +286,18 @@ def FragName.str : FragName → String
   | .thresh => "thresh" | .multi => "multi" | .sortedmulti => "sortedmulti"
   | .multi_a => "multi_a" | .sortedmulti_a => "sortedmulti_a"
 
-/-- position of the name in the byte-wise (`str::cmp`) order of the 37 names;
+/-- position of the name in the byte-wise (`str::cmp`) order of the 36 names;
 `C19.fragRank_faithful` checks the table against `compare` on the strings -/
 def FragName.rank : FragName → Nat
   | .zero => 0 | .one => 1 | .a => 2 | .after => 3 | .and_b => 4 | .and_n => 5 | .and_v => 6
-  | .andor => 7 | .c => 8 | .d => 9 | .expr_raw_pk_h => 10 | .expr_raw_pkh => 11
-  | .hash160 => 12 | .hash256 => 13 | .j => 14 | .l => 15 | .multi => 16 | .multi_a => 17
-  | .n => 18 | .older => 19 | .or_b => 20 | .or_c => 21 | .or_d => 22 | .or_i => 23 | .pk => 24
-  | .pk_h => 25 | .pk_k => 26 | .pkh => 27 | .ripemd160 => 28 | .s => 29 | .sha256 => 30
-  | .sortedmulti => 31 | .sortedmulti_a => 32 | .t => 33 | .thresh => 34 | .u => 35 | .v => 36
+  | .andor => 7 | .c => 8 | .d => 9 | .expr_raw_pkh => 10 | .hash160 => 11 | .hash256 => 12
+  | .j => 13 | .l => 14 | .multi => 15 | .multi_a => 16 | .n => 17 | .older => 18 | .or_b => 19
+  | .or_c => 20 | .or_d => 21 | .or_i => 22 | .pk => 23 | .pk_h => 24 | .pk_k => 25 | .pkh => 26
+  | .ripemd160 => 27 | .s => 28 | .sha256 => 29 | .sortedmulti => 30 | .sortedmulti_a => 31
+  | .t => 32 | .thresh => 33 | .u => 34 | .v => 35
 
 def FragName.all : List FragName :=
-  [.one, .zero, .pk_k, .pk_h, .expr_raw_pk_h, .after, .older, .sha256, .hash256, .ripemd160,
+  [.one, .zero, .pk_k, .pk_h, .after, .older, .sha256, .hash256, .ripemd160,
    .hash160, .a, .s, .pk, .pkh, .expr_raw_pkh, .c, .d, .v, .j, .n, .t, .and_v, .and_n, .and_b,
    .andor, .or_b, .or_d, .or_c, .u, .l, .or_i, .thresh, .multi, .sortedmulti, .multi_a,
    .sortedmulti_a]
@@ -320,7 +320,7 @@ def Ms.fragName : Ms → FragName
   | .fls => .zero
   | .pkK _ => .pk_k
   | .pkH _ => .pk_h
-  | .rawPkH _ => .expr_raw_pk_h
+  | .rawPkH _ => .expr_raw_pkh
   | .after _ => .after
   | .older _ => .older
   | .hash kind _ => FragName.ofHash kind
@@ -330,7 +330,6 @@ def Ms.fragName : Ms → FragName
     match sub with
     | .pkK _ => .pk
     | .pkH _ => .pkh
-    | .rawPkH _ => .expr_raw_pkh
     | _ => .c
   | .dupIf _ => .d
   | .verify _ => .v
@@ -379,7 +378,6 @@ def DNode.asNode : DNode → Tree DNode
     | .check sub =>
       match sub with
       | .pkK pk | .pkH pk => .unary (.key pk)
-      | .rawPkH h => .unary (.rawKeyHash h)
       | _ => .unary (.node sub)
     | .alt sub | .swap sub | .dupIf sub | .verify sub | .nonZero sub | .zeroNotEqual sub =>
       .unary (.node sub)
